@@ -289,10 +289,7 @@ pub(crate) fn ref_parse(buf: &[u8], len: usize, maxo: usize) -> RefParse {
     r
 }
 
-/// Compare a parsed packet with the reference parse, field by field. Options are compared
-/// without nested iteration: the total count must match, and the reference option at one
-/// symbolic index k must be the j-th value stored under its number (j = how many earlier
-/// reference options share the number).
+/// Compare a parsed packet with the reference parse, field by field.
 fn c03_compare(p: &Packet, buf: &[u8], len: usize, r: &RefParse, maxo: usize, contents: bool) {
     assert!(p.header.get_version() == buf[0] >> 6, "C03: version field");
     assert!(p.header.get_token_length() as usize == r.tkl, "C03: token length field");
@@ -303,36 +300,27 @@ fn c03_compare(p: &Packet, buf: &[u8], len: usize, r: &RefParse, maxo: usize, co
     if contents && ti < r.tkl {
         assert!(p.get_token()[ti] == buf[4 + ti], "C03: token bytes");
     }
-    let mut total = 0usize;
-    for (_, list) in p.options.iter() {
-        total += list.len();
-    }
-    assert!(total == r.nopts, "C03: parser returned exactly the option values the datagram holds");
-    let k: usize = kani::any();
-    if k < r.nopts {
-        let o = r.opts[k];
-        let mut j = 0usize;
-        let mut t = 0usize;
-        while t < maxo {
-            if t < k && r.opts[t].number == o.number {
-                j += 1;
-            }
-            t += 1;
-        }
-        match p.options.get(&(o.number as u16)) {
-            None => assert!(false, "C03: option number = sum of deltas"),
-            Some(list) => match list.iter().nth(j) {
-                None => assert!(false, "C03: repeated option values keep their wire order"),
-                Some(v) => {
-                    assert!(v.len() == o.end - o.start, "C03: option value length");
+    // Options: the map sorted by number with per-number insertion order, flattened, must be the wire order.
+    // Both sides are walked in step; the map side is only touched at concrete cell / list positions.
+    let mut k = 0usize;
+    for (num, list) in p.options.iter() {
+        for v in list.iter() {
+            assert!(k < r.nopts, "C03: parser returned more option values than the datagram holds");
+            if k < r.nopts && k < maxo {
+                let o = r.opts[k];
+                assert!(*num as u32 == o.number, "C03: option number = sum of deltas, repeated numbers in wire order");
+                assert!(v.len() == o.end - o.start, "C03: option value length");
+                if contents {
                     let b: usize = kani::any();
-                    if contents && b < v.len() {
+                    if b < v.len() {
                         assert!(v[b] == buf[o.start + b], "C03: option value bytes");
                     }
                 }
-            },
+            }
+            k += 1;
         }
     }
+    assert!(k == r.nopts, "C03: parser returned every option value of the datagram");
     assert!(p.payload.len() == r.payload_end - r.payload_start, "C03: payload length");
     let pi: usize = kani::any();
     if contents && pi < p.payload.len() {
@@ -360,7 +348,7 @@ macro_rules! c03_total {
                     }
                     kani::cover!(r.nopts >= 2, "accepted with two or more options");
                     kani::cover!(r.payload_start < len, "accepted with a payload");
-                    kani::cover!(r.tkl == 4, "accepted with a four-byte token");
+                    kani::cover!(r.tkl + 5 == N, "accepted with the longest token that leaves room for one more byte");
                     core::mem::forget(p);
                 }
                 Err(_) => {
@@ -377,27 +365,27 @@ macro_rules! c03_total {
     };
 }
 
-//@ props=C03 tier=quick timeout=1500 mem=24 cap=4 witness=c03_total_6 name=c03_total_8
+//@ props=C03 tier=quick timeout=1500 mem=24 cap=4 ilist=1 witness=c03_total_6 name=c03_total_8
 //@ functions=Packet::from_bytes, HeaderRaw::try_from, Header::from_raw, MessageClass::from
 //@ bounds=every byte string of length 0..8 (length and all bytes symbolic); unwind 7
 //@ what=never panics/overflows/reads out of bounds (Kani's implicit checks); must-reject => Err; must-accept => Ok (verdict only; field equality is c03_fields_*)
 //@ assumes=option map is the fixed-capacity array model (capacity = max distinct numbers an 8-byte datagram can hold)
 c03_total!(c03_total_8, 8, 7, false);
 
-//@ props=C03 tier=witness timeout=1200 mem=30 cap=2 name=c03_total_6
+//@ props=C03 tier=witness timeout=1200 mem=30 cap=2 ilist=1 name=c03_total_6
 //@ functions=Packet::from_bytes
 //@ bounds=every byte string of length 0..6; only used to extract concrete counterexamples (trace generation on the 8-byte harness does not fit in memory)
 //@ what=as c03_total_8
-c03_total!(c03_total_6, 6, 5, false);
+c03_total!(c03_total_6, 6, 6, false);
 
-//@ props=C03,C02 tier=quick timeout=1800 mem=24 cap=3 witness=c03_total_6 name=c03_framing_7
+//@ props=C03,C02 tier=quick timeout=1800 mem=24 cap=3 ilist=1 witness=c03_total_6 name=c03_framing_7
 //@ functions=Packet::from_bytes, HeaderRaw::try_from, Header::from_raw, MessageClass::from
 //@ bounds=every byte string of length 0..7 (length and all bytes symbolic); unwind 6
 //@ what=as c03_total_8 plus the framing of an accepted well-formed datagram: version, type, token length, code, id, number of option values, each option's number and length (at a symbolic index, repeated numbers in wire order), payload length - all equal to the RFC 7252 reference parse. Byte contents are compared by c03_content_*
 //@ assumes=option map is the fixed-capacity array model
 c03_total!(c03_framing_7, 7, 6, true);
 
-//@ props=C03,C02 tier=thorough timeout=3600 mem=40 cap=4 name=c03_framing_8
+//@ props=C03,C02 tier=thorough timeout=3600 mem=40 cap=4 ilist=1 name=c03_framing_8
 //@ functions=Packet::from_bytes
 //@ bounds=every byte string of length 0..8; unwind 7
 //@ what=as c03_framing_7 at 8 bytes
@@ -421,8 +409,7 @@ macro_rules! c03_content {
                     assert!(r.verdict != V_REJECT, "C03: malformed datagram accepted");
                     if r.verdict == V_ACCEPT {
                         c03_compare(&p, &buf, N, &r, 4, true);
-                        kani::cover!(r.nopts >= 2 && r.opts[0].number == r.opts[1].number, "repeated option number");
-                        kani::cover!(r.nopts >= 2 && r.opts[1].number > 300, "a large second option number");
+                        kani::cover!(r.nopts == 1 && r.opts[0].number > 100, "an accepted extended delta");
                     }
                     core::mem::forget(p);
                 }
@@ -434,33 +421,30 @@ macro_rules! c03_content {
     };
 }
 
-//@ props=C03,C02 tier=quick timeout=1800 mem=24 cap=3 name=c03_content_a
+//@ props=C03,C02 tier=quick timeout=1800 mem=24 cap=2 ilist=1 name=c03_content_a
 //@ functions=Packet::from_bytes
-//@ bounds=layout: version 1, TKL 2, option (delta nibble 0..12 symbolic, length 1), option (delta 13 + one extended byte symbolic, length 2), 0xFF, 1 payload byte = 14 bytes; all other bits symbolic
-//@ what=an accepted datagram yields token, option values (in wire order) and payload byte for byte as in the datagram
-c03_content!(c03_content_a, 14, |b: &mut [u8; 14]| {
+//@ bounds=layout: version 1, TKL 2, ONE option (delta 13 + one extended byte symbolic, length 2), 0xFF, 2 payload bytes = 13 bytes; all other bits symbolic
+//@ what=an accepted datagram yields token, option value and payload byte for byte as in the datagram
+//@ outside=byte contents with two or more options in one query ran out of memory (28 GB); their framing is c03_framing_7
+c03_content!(c03_content_a, 13, |b: &mut [u8; 13]| {
     b[0] = 0x40 | (b[0] & 0x30) | 2;
     kani::assume(b[1] != 0);
-    kani::assume((b[6] >> 4) <= 12);
-    b[6] = (b[6] & 0xF0) | 1;
-    b[8] = 0xD2;
-    b[12] = 0xFF;
+    b[6] = 0xD2;
+    b[10] = 0xFF;
 });
 
-//@ props=C03,C02 tier=quick timeout=1800 mem=24 cap=3 name=c03_content_b
+//@ props=C03,C02 tier=quick timeout=1800 mem=24 cap=2 ilist=1 name=c03_content_b
 //@ functions=Packet::from_bytes
-//@ bounds=layout: version 1, TKL 0, option (delta 14 + two extended bytes symbolic, length 0), option (delta nibble 0..12, length 13 + extended byte 0 => 13 value bytes), no payload = 4 + 3 + 2 + 13 = 22 bytes; all other bits symbolic
+//@ bounds=layout: version 1, TKL 0, ONE option (delta 14 + two extended bytes symbolic, length 13 + extended byte 0 => 13 value bytes), no payload = 4 + 4 + 13 = 21 bytes; all other bits symbolic
 //@ what=as c03_content_a; reaches an accepted two-byte extended delta and a one-byte extended length
-c03_content!(c03_content_b, 22, |b: &mut [u8; 22]| {
+c03_content!(c03_content_b, 21, |b: &mut [u8; 21]| {
     b[0] = 0x40 | (b[0] & 0x30);
     kani::assume(b[1] != 0);
-    b[4] = 0xE0;
-    kani::assume((b[7] >> 4) <= 12);
-    b[7] = (b[7] & 0xF0) | 13;
-    b[8] = 0;
+    b[4] = 0xED;
+    b[7] = 0;
 });
 
-//@ props=C03 tier=thorough timeout=3600 mem=40 cap=7 name=c03_total_11
+//@ props=C03 tier=thorough timeout=3600 mem=40 cap=7 ilist=1 name=c03_total_11
 //@ functions=Packet::from_bytes, HeaderRaw::try_from, Header::from_raw, MessageClass::from
 //@ bounds=every byte string of length 0..11 (length and all bytes symbolic); unwind 10
 //@ what=as c03_total_8 at 11 bytes: room for a token plus two extended-delta options, or the 65535 option-number overflow via two 3-byte headers
@@ -489,7 +473,7 @@ fn one_value(v: Vec<u8>) -> LinkedList<Vec<u8>> {
 //@ bounds=version 0..3 and type set in both orders, code: all 256, message id: all 65536, token: length 0..8 with symbolic bytes; no options, no payload
 //@ what=bytes = [Ver<<6|T<<4|TKL, code, id_hi, id_lo, token...] exactly
 #[kani::proof]
-#[kani::unwind(4)]
+#[kani::unwind(6)]
 #[kani::stub(core::fmt::write, crate::verif_harness::stub_write)]
 fn c01_header_token() {
     let mut p = Packet::new();
@@ -564,20 +548,11 @@ fn c01_payload_marker() {
     core::mem::forget(p);
 }
 
-//@ props=C01 tier=quick timeout=1800 mem=16 cap=2
-//@ functions=Packet::to_bytes_internal (option header: delta and length nibbles, extended fields)
-//@ bounds=one option: number = every u16 (first option: delta = number, incl. 258 and the gap 256..268), value length symbolic 0..300 (both sides of 13 and 269), value bytes all equal to one symbolic byte; message id symbolic; no token, no payload
-//@ what=option header bytes equal the RFC 7252 section 3.1 reference encoding of (delta, length); value bytes follow; total length exact
-//@ assumes=the entry is placed in slot 0 of the array model (sorting is std's job)
-#[kani::proof]
-#[kani::unwind(4)]
-#[kani::stub(core::fmt::write, crate::verif_harness::stub_write)]
-fn c01_one_option_len() {
+/// One option, number and value length given by the caller (either may be symbolic - not both: a
+/// symbolic number together with a symbolic length did not finish in 30 minutes).
+fn c01_one_option(n1: u16, l: usize, every_value_byte: bool) {
     let mut p = Packet::new();
     p.header.message_id = kani::any();
-    let n1: u16 = kani::any();
-    let l: usize = kani::any();
-    kani::assume(l <= 300);
     let x: u8 = kani::any();
     p.options.verif_push_sorted(n1, one_value(vec![x; l]));
     let mut h = [0u8; 5];
@@ -591,17 +566,96 @@ fn c01_one_option_len() {
     if i < hn {
         assert!(bytes[4 + i] == h[i], "C01: option header = RFC 7252 delta/length nibbles and extended fields");
     }
-    let j: usize = kani::any();
-    if j < l {
-        assert!(bytes[4 + hn + j] == x, "C01: option value bytes follow the option header");
+    if every_value_byte {
+        let j: usize = kani::any();
+        if j < l {
+            assert!(bytes[4 + hn + j] == x, "C01: option value bytes follow the option header");
+        }
+    } else if l > 0 {
+        // symbolic length: only the first value byte is read back (a symbolic index into a buffer of symbolic
+        // length did not finish in 30 minutes); whole values are compared in the concrete-length harnesses
+        assert!(bytes[4 + hn] == x, "C01: option value bytes follow the option header");
     }
-    kani::cover!(n1 == 258 && l == 1, "No-Response as the first option");
-    kani::cover!(n1 >= 256 && n1 <= 268 && l == 13, "number in the gap 256..268, length 13");
-    kani::cover!(l == 269 && n1 == 269, "both fields at 269");
-    kani::cover!(l == 268 && n1 == 12, "length 268, delta 12");
-    kani::cover!(n1 == 65535 && l == 300, "largest number");
     core::mem::forget(p);
 }
+
+macro_rules! c01_one_option_num {
+    ($name:ident, $l:expr) => {
+        #[kani::proof]
+        #[kani::unwind(6)]
+        #[kani::stub(core::fmt::write, crate::verif_harness::stub_write)]
+        fn $name() {
+            let n1: u16 = kani::any();
+            c01_one_option(n1, $l, true);
+            kani::cover!(n1 == 258, "No-Response as the first option");
+            kani::cover!(n1 >= 256 && n1 <= 268, "number in the gap 256..268");
+            kani::cover!(n1 == 269, "delta exactly 269");
+            kani::cover!(n1 == 12, "delta 12");
+            kani::cover!(n1 == 65535, "largest number");
+        }
+    };
+}
+
+macro_rules! c01_one_option_length {
+    ($name:ident, $n:expr) => {
+        #[kani::proof]
+        #[kani::unwind(6)]
+        #[kani::stub(core::fmt::write, crate::verif_harness::stub_write)]
+        fn $name() {
+            let l: usize = kani::any();
+            kani::assume(l <= 300);
+            c01_one_option($n, l, false);
+            kani::cover!(l == 12, "length 12");
+            kani::cover!(l == 13, "length 13");
+            kani::cover!(l == 268, "length 268");
+            kani::cover!(l == 269, "length 269");
+            kani::cover!(l == 300, "length 300");
+        }
+    };
+}
+
+//@ props=C01 tier=quick timeout=1200 mem=12 cap=2 name=c01_one_option_num_l1
+//@ functions=Packet::to_bytes_internal (option header: delta nibble and extended delta)
+//@ bounds=one option: number = every u16 (first option: delta = number, incl. 258 and the gap 256..268), value of 1 symbolic byte; message id symbolic
+//@ what=option header bytes equal the RFC 7252 section 3.1 reference encoding of (delta, length); value follows; total length exact
+//@ assumes=the entry is placed in slot 0 of the array model (sorting is std's job)
+c01_one_option_num!(c01_one_option_num_l1, 1);
+
+//@ props=C01 tier=quick timeout=1200 mem=12 cap=2 name=c01_one_option_num_l13
+//@ functions=Packet::to_bytes_internal
+//@ bounds=as c01_one_option_num_l1 with a value of 13 bytes (extended delta and extended length in one header)
+//@ what=as c01_one_option_num_l1
+c01_one_option_num!(c01_one_option_num_l13, 13);
+
+//@ props=C01 tier=thorough timeout=1800 mem=16 cap=2 name=c01_one_option_num_l269
+//@ functions=Packet::to_bytes_internal
+//@ bounds=as c01_one_option_num_l1 with a value of 269 bytes (two-byte extended length next to every delta class)
+//@ what=as c01_one_option_num_l1
+c01_one_option_num!(c01_one_option_num_l269, 269);
+
+//@ props=C01 tier=thorough timeout=1800 mem=16 cap=2 name=c01_one_option_num_l0
+//@ functions=Packet::to_bytes_internal
+//@ bounds=as c01_one_option_num_l1 with an empty value
+//@ what=as c01_one_option_num_l1
+c01_one_option_num!(c01_one_option_num_l0, 0);
+
+//@ props=C01 tier=quick timeout=1800 mem=16 cap=2 name=c01_one_option_len_258
+//@ functions=Packet::to_bytes_internal (length nibble and extended length)
+//@ bounds=one option number 258 (No-Response, delta in the one-byte extension just below 269), value length symbolic 0..300 (both sides of 13 and 269), value bytes all equal to one symbolic byte
+//@ what=as c01_one_option_num_l1
+c01_one_option_length!(c01_one_option_len_258, 258);
+
+//@ props=C01 tier=thorough timeout=1800 mem=16 cap=2 name=c01_one_option_len_11
+//@ functions=Packet::to_bytes_internal
+//@ bounds=one option number 11 (Uri-Path), value length symbolic 0..300
+//@ what=as c01_one_option_num_l1
+c01_one_option_length!(c01_one_option_len_11, 11);
+
+//@ props=C01 tier=thorough timeout=1800 mem=16 cap=2 name=c01_one_option_len_2000
+//@ functions=Packet::to_bytes_internal
+//@ bounds=one option number 2000 (two-byte extended delta), value length symbolic 0..300
+//@ what=as c01_one_option_num_l1
+c01_one_option_length!(c01_one_option_len_2000, 2000);
 
 //@ props=C01 tier=quick timeout=1800 mem=16 cap=3
 //@ functions=Packet::to_bytes_internal (running delta)
@@ -609,7 +663,7 @@ fn c01_one_option_len() {
 //@ what=first header encodes n1, second encodes n2 - n1; values in place; total length exact
 //@ assumes=entries placed in ascending slots of the array model (n1 < n2 assumed)
 #[kani::proof]
-#[kani::unwind(5)]
+#[kani::unwind(6)]
 #[kani::stub(core::fmt::write, crate::verif_harness::stub_write)]
 fn c01_two_options() {
     let mut p = Packet::new();
@@ -646,46 +700,56 @@ fn c01_two_options() {
     core::mem::forget(p);
 }
 
-//@ props=C01 tier=quick timeout=1200 mem=12 cap=2
-//@ functions=Packet::add_option (repeat), Packet::to_bytes_internal (delta 0)
-//@ bounds=one symbolic number (every u16), three values of 1, 0 and 2 symbolic bytes added through the public add_option
-//@ what=repeated options are emitted in insertion order, the second and third with delta 0
-#[kani::proof]
-#[kani::unwind(5)]
-#[kani::stub(core::fmt::write, crate::verif_harness::stub_write)]
-fn c01_same_number() {
-    let mut p = Packet::new();
-    let n1: u16 = kani::any();
-    let a: u8 = kani::any();
-    let c: [u8; 2] = kani::any();
-    p.add_option(CoapOption::from(n1), vec![a]);
-    p.add_option(CoapOption::from(n1), vec![]);
-    p.add_option(CoapOption::from(n1), c.to_vec());
-    let bytes = match p.to_bytes_unlimited() {
-        Ok(b) => b,
-        Err(_) => { assert!(false, "C01: encodes"); return; }
+macro_rules! c01_same_number {
+    ($name:ident, $n:expr) => {
+        #[kani::proof]
+        #[kani::unwind(6)]
+        #[kani::stub(core::fmt::write, crate::verif_harness::stub_write)]
+        fn $name() {
+            let mut p = Packet::new();
+            let n1: u16 = $n;
+            let a: u8 = kani::any();
+            let c: [u8; 2] = kani::any();
+            p.add_option(CoapOption::from(n1), vec![a]);
+            p.add_option(CoapOption::from(n1), c.to_vec());
+            let bytes = match p.to_bytes_unlimited() {
+                Ok(b) => b,
+                Err(_) => { assert!(false, "C01: encodes"); return; }
+            };
+            let mut h = [0u8; 5];
+            let hn = ref_opt_hdr(n1 as u32, 1, &mut h);
+            assert!(bytes.len() == 4 + hn + 1 + 1 + 2, "C01: two values under one number");
+            let i: usize = kani::any();
+            if i < hn {
+                assert!(bytes[4 + i] == h[i], "C01: first of the repeated options carries the number");
+            }
+            assert!(bytes[4 + hn] == a, "C01: first value");
+            assert!(bytes[4 + hn + 1] == 0x02 && bytes[4 + hn + 2] == c[0] && bytes[4 + hn + 3] == c[1], "C01: repeated option: delta 0, in insertion order");
+            kani::cover!(true, "encoded");
+            core::mem::forget(p);
+        }
     };
-    let mut h = [0u8; 5];
-    let hn = ref_opt_hdr(n1 as u32, 1, &mut h);
-    assert!(bytes.len() == 4 + hn + 1 + 1 + 1 + 2, "C01: three values under one number");
-    let i: usize = kani::any();
-    if i < hn {
-        assert!(bytes[4 + i] == h[i], "C01: first of the repeated options carries the number");
-    }
-    assert!(bytes[4 + hn] == a, "C01: first value");
-    assert!(bytes[4 + hn + 1] == 0x00, "C01: repeated option: delta 0, length 0");
-    assert!(bytes[4 + hn + 2] == 0x02 && bytes[4 + hn + 3] == c[0] && bytes[4 + hn + 4] == c[1], "C01: repeated option: delta 0, in insertion order");
-    kani::cover!(n1 == 258, "repeated No-Response");
-    kani::cover!(n1 == 11, "repeated Uri-Path");
-    core::mem::forget(p);
 }
+
+//@ props=C01 tier=quick timeout=1200 mem=12 cap=2 name=c01_same_number_11
+//@ functions=Packet::add_option (repeat), Packet::to_bytes_internal (delta 0)
+//@ bounds=option number 11 (concrete), two values of 1 and 2 symbolic bytes added through the public add_option
+//@ what=repeated options are emitted in insertion order, the second with delta 0
+//@ outside=a symbolic number next to two stored values ran out of memory; an empty middle value likewise (zero-capacity Vec)
+c01_same_number!(c01_same_number_11, 11);
+
+//@ props=C01 tier=thorough timeout=1200 mem=12 cap=2 name=c01_same_number_258
+//@ functions=Packet::add_option (repeat), Packet::to_bytes_internal (delta 0)
+//@ bounds=option number 258 (No-Response), two values of 1 and 2 symbolic bytes
+//@ what=as c01_same_number_11
+c01_same_number!(c01_same_number_258, 258);
 
 //@ props=C01 tier=quick timeout=1200 mem=12 cap=3
 //@ functions=Packet::clear_option, Packet::add_option, Packet::set_option, Packet::to_bytes_internal (empty value list)
 //@ bounds=numbers 11 and 12 (concrete), symbolic value bytes; option 11 is cleared and optionally re-added; option 12 follows
 //@ what=a cleared option emits nothing and does not disturb the delta of the next option; re-adding emits exactly the new value
 #[kani::proof]
-#[kani::unwind(5)]
+#[kani::unwind(6)]
 #[kani::stub(core::fmt::write, crate::verif_harness::stub_write)]
 fn c01_clear_readd() {
     let mut p = Packet::new();
@@ -716,51 +780,68 @@ fn c01_clear_readd() {
     core::mem::forget(p);
 }
 
-//@ props=C01 tier=quick timeout=1500 mem=14 cap=3
-//@ functions=Packet::add_option (both orders), Packet::to_bytes_internal
-//@ bounds=pairs of concrete numbers from each delta class: (11, 12) (11, 23) (11, 300) (3, 258+14=272), public add_option in either order (symbolic), symbolic one-byte values
-//@ what=the encoding does not depend on the order of the add_option calls: ascending numbers, deltas between them
-#[kani::proof]
-#[kani::unwind(5)]
-#[kani::stub(core::fmt::write, crate::verif_harness::stub_write)]
-fn c01_api_order() {
-    let which: u8 = kani::any();
-    kani::assume(which < 4);
-    let (n1, n2): (u16, u16) = match which {
-        0 => (11, 12),
-        1 => (11, 23),
-        2 => (11, 300),
-        _ => (3, 272),
+macro_rules! c01_api_order {
+    ($name:ident, $n1:expr, $n2:expr, $descending:expr) => {
+        #[kani::proof]
+        #[kani::unwind(6)]
+        #[kani::stub(core::fmt::write, crate::verif_harness::stub_write)]
+        fn $name() {
+            let (n1, n2): (u16, u16) = ($n1, $n2);
+            let a: u8 = kani::any();
+            let b: u8 = kani::any();
+            let mut p = Packet::new();
+            if $descending {
+                p.add_option(CoapOption::from(n2), vec![b]);
+                p.add_option(CoapOption::from(n1), vec![a]);
+            } else {
+                p.add_option(CoapOption::from(n1), vec![a]);
+                p.add_option(CoapOption::from(n2), vec![b]);
+            }
+            let bytes = match p.to_bytes_unlimited() {
+                Ok(b) => b,
+                Err(_) => { assert!(false, "C01: encodes"); return; }
+            };
+            let mut h1 = [0u8; 5];
+            let mut h2 = [0u8; 5];
+            let hn1 = ref_opt_hdr(n1 as u32, 1, &mut h1);
+            let hn2 = ref_opt_hdr((n2 - n1) as u32, 1, &mut h2);
+            assert!(bytes.len() == 4 + hn1 + 1 + hn2 + 1, "C01: total length");
+            assert!(hn1 == 1 && bytes[4] == h1[0] && bytes[5] == a, "C01: lower number first whatever the call order");
+            let j: usize = kani::any();
+            if j < hn2 {
+                assert!(bytes[6 + j] == h2[j], "C01: second header = difference of the numbers");
+            }
+            assert!(bytes[6 + hn2] == b, "C01: second value");
+            kani::cover!(true, "encoded");
+            core::mem::forget(p);
+        }
     };
-    let a: u8 = kani::any();
-    let b: u8 = kani::any();
-    let mut p = Packet::new();
-    if kani::any() {
-        p.add_option(CoapOption::from(n1), vec![a]);
-        p.add_option(CoapOption::from(n2), vec![b]);
-    } else {
-        p.add_option(CoapOption::from(n2), vec![b]);
-        p.add_option(CoapOption::from(n1), vec![a]);
-    }
-    let bytes = match p.to_bytes_unlimited() {
-        Ok(b) => b,
-        Err(_) => { assert!(false, "C01: encodes"); return; }
-    };
-    let mut h1 = [0u8; 5];
-    let mut h2 = [0u8; 5];
-    let hn1 = ref_opt_hdr(n1 as u32, 1, &mut h1);
-    let hn2 = ref_opt_hdr((n2 - n1) as u32, 1, &mut h2);
-    assert!(bytes.len() == 4 + hn1 + 1 + hn2 + 1, "C01: total length");
-    assert!(hn1 == 1 && bytes[4] == h1[0] && bytes[5] == a, "C01: lower number first whatever the call order");
-    let j: usize = kani::any();
-    if j < hn2 {
-        assert!(bytes[6 + j] == h2[j], "C01: second header = difference of the numbers");
-    }
-    assert!(bytes[6 + hn2] == b, "C01: second value");
-    kani::cover!(which == 2, "delta 289 (two-byte extension)");
-    kani::cover!(which == 3, "delta 269 exactly");
-    core::mem::forget(p);
 }
+
+//@ props=C01 tier=quick timeout=1500 mem=14 cap=3 name=c01_api_order_desc_300
+//@ functions=Packet::add_option (descending call order), Packet::to_bytes_internal
+//@ bounds=numbers 11 and 300 (concrete; delta 289 = two-byte extension) added through the public add_option with the HIGHER number first; symbolic one-byte values
+//@ what=the encoding does not depend on the order of the add_option calls: ascending numbers, deltas between them
+//@ outside=the call order is concrete per harness (a symbolic order made the map shape symbolic: out of memory)
+c01_api_order!(c01_api_order_desc_300, 11, 300, true);
+
+//@ props=C01 tier=quick timeout=1500 mem=14 cap=3 name=c01_api_order_desc_272
+//@ functions=Packet::add_option (descending call order), Packet::to_bytes_internal
+//@ bounds=numbers 3 and 272 (delta exactly 269), higher number first; symbolic one-byte values
+//@ what=as c01_api_order_desc_300
+c01_api_order!(c01_api_order_desc_272, 3, 272, true);
+
+//@ props=C01 tier=thorough timeout=1500 mem=14 cap=3 name=c01_api_order_asc_23
+//@ functions=Packet::add_option (ascending call order), Packet::to_bytes_internal
+//@ bounds=numbers 11 and 23 (delta 12), lower number first; symbolic one-byte values
+//@ what=as c01_api_order_desc_300
+c01_api_order!(c01_api_order_asc_23, 11, 23, false);
+
+//@ props=C01 tier=thorough timeout=1500 mem=14 cap=3 name=c01_api_order_desc_24
+//@ functions=Packet::add_option (descending call order), Packet::to_bytes_internal
+//@ bounds=numbers 11 and 24 (delta 13), higher number first; symbolic one-byte values
+//@ what=as c01_api_order_desc_300
+c01_api_order!(c01_api_order_desc_24, 11, 24, true);
 
 //@ props=C01 tier=thorough timeout=3000 mem=30 cap=4
 //@ functions=Packet::to_bytes_internal (running delta over three options)
@@ -849,7 +930,7 @@ fn c04_check(p: &Packet, exact: usize) {
 //@ bounds=no options, code: all 256, payload length symbolic 0..1400 (zero bytes), limit: every usize
 //@ what=Ok with exactly the wire length (4 + marker and payload when a payload is sent) iff that length <= limit, else a packet-length error; to_bytes() = limit MAX_SIZE; unlimited always Ok; all raw copies stay inside their reservations (Kani's pointer checks)
 #[kani::proof]
-#[kani::unwind(4)]
+#[kani::unwind(6)]
 #[kani::stub(core::fmt::write, crate::verif_harness::stub_write)]
 fn c04_limit_payload() {
     let mut p = Packet::new();
@@ -870,7 +951,7 @@ fn c04_limit_payload() {
 //@ bounds=one option (number 15 or 300: one- and three-byte delta) with value length symbolic 0..1400, token 2 bytes, no payload, limit: every usize
 //@ what=the limit counts option header and value bytes exactly
 #[kani::proof]
-#[kani::unwind(4)]
+#[kani::unwind(6)]
 #[kani::stub(core::fmt::write, crate::verif_harness::stub_write)]
 fn c04_limit_option() {
     let mut p = Packet::new();
@@ -894,7 +975,7 @@ fn c04_limit_option() {
 //@ bounds=token length symbolic 0..8, one option of 1 byte, payload of 1 byte, code symbolic, limit: every usize
 //@ what=the limit counts the token and the marker
 #[kani::proof]
-#[kani::unwind(4)]
+#[kani::unwind(6)]
 #[kani::stub(core::fmt::write, crate::verif_harness::stub_write)]
 fn c04_limit_token() {
     let mut p = Packet::new();
@@ -916,7 +997,7 @@ fn c04_limit_token() {
 //@ bounds=one option whose value length is symbolic in 65790..65820 (around 65535 + 269 = 65804)
 //@ what=lengths up to 65804 are emitted with the correct 16-bit extended length; longer values are refused rather than emitted with a truncated length
 #[kani::proof]
-#[kani::unwind(4)]
+#[kani::unwind(6)]
 #[kani::stub(core::fmt::write, crate::verif_harness::stub_write)]
 fn c04_len16() {
     let mut p = Packet::new();
@@ -948,7 +1029,7 @@ fn c04_len16() {
 //@ bounds=format: every registered content format (via try_from of a symbolic usize); pre-state: no Content-Format, or one earlier value set through the same setter (any registered format), or one raw value of 0..3 symbolic bytes
 //@ what=after set_content_format(f): get_content_format() = Some(f) and the raw option is exactly one value = shortest big-endian id, whatever was there before; get on raw bytes: named format iff the big-endian value (length <= 2) is a registered id
 #[kani::proof]
-#[kani::unwind(5)]
+#[kani::unwind(6)]
 #[kani::stub(core::fmt::write, crate::verif_harness::stub_write)]
 fn c19_content_format() {
     let mut p = Packet::new();
@@ -1117,33 +1198,29 @@ macro_rules! c02_reencode {
     };
 }
 
-//@ props=C02 tier=quick timeout=1800 mem=24 cap=3 name=c02_reencode_a
+//@ props=C02 tier=quick timeout=1800 mem=24 cap=2 name=c02_reencode_one_option
 //@ functions=Packet::from_bytes, Packet::to_bytes_unlimited, Packet::to_bytes_internal
-//@ bounds=layout of c03_content_a (version, type, id, code != 0.00, TKL 2, option(delta nibble 0..12, len 1), option(delta 13 + symbolic extended byte, len 2), 0xFF, 1 payload byte) with every free bit symbolic
-//@ what=parse then serialise without limit gives back the 14 input bytes
-c02_reencode!(c02_reencode_a, 14, |b: &mut [u8; 14]| {
-    b[0] = (b[0] & 0xF0) | 2;
-    kani::assume(b[1] != 0);
-    kani::assume((b[6] >> 4) <= 12);
-    b[6] = (b[6] & 0xF0) | 1;
-    b[8] = 0xD2;
-    b[12] = 0xFF;
-}, |_b: &[u8; 14]| 14usize);
-
-//@ props=C02 tier=quick timeout=1800 mem=24 cap=3 name=c02_reencode_marker
-//@ functions=Packet::from_bytes, Packet::to_bytes_unlimited
-//@ bounds=8-byte datagrams: header (any first byte with TKL 1, any code incl. 0.00, any id), 1 token byte, one option (delta nibble 0..12, length 0), then either a lone trailing 0xFF or 0xFF plus one payload byte (symbolic choice via the last byte position)
-//@ what=the only differences re-encoding may make: a trailing marker with nothing after it is dropped, and the payload of a 0.00 message is dropped
-c02_reencode!(c02_reencode_marker, 8, |b: &mut [u8; 8]| {
+//@ bounds=10-byte datagrams: any first byte with TKL 1, code != 0.00, any id, 1 token byte, one option (delta 13 + symbolic extended byte, length 1), 0xFF, 1 payload byte - every free bit symbolic
+//@ what=parse then serialise without limit gives back the 10 input bytes
+//@ outside=layouts with two or more options in one parse-then-serialise query did not finish in 30 minutes; they are covered by the composition C03 + C01
+c02_reencode!(c02_reencode_one_option, 10, |b: &mut [u8; 10]| {
     b[0] = (b[0] & 0xF0) | 1;
-    kani::assume((b[5] >> 4) <= 12);
-    b[5] &= 0xF0;
-    // b[6] is either the marker (then b[7] is payload) or another zero-length option followed by a lone marker
+    kani::assume(b[1] != 0);
+    b[5] = 0xD1;
+    b[8] = 0xFF;
+}, |_b: &[u8; 10]| 10usize);
+
+//@ props=C02 tier=quick timeout=1800 mem=24 cap=2 name=c02_reencode_marker
+//@ functions=Packet::from_bytes, Packet::to_bytes_unlimited
+//@ bounds=6-byte datagrams: header (any first byte with TKL 0, any code incl. 0.00, any id) followed by 0xFF and one more byte, or by a zero-length option and a lone trailing 0xFF (symbolic choice)
+//@ what=the only differences re-encoding may make: a trailing marker with nothing after it is dropped, and the payload of a 0.00 message is dropped
+c02_reencode!(c02_reencode_marker, 6, |b: &mut [u8; 6]| {
+    b[0] &= 0xF0;
     if kani::any() {
-        b[6] = 0xFF;
+        b[4] = 0xFF;
     } else {
-        kani::assume((b[6] >> 4) <= 12);
-        b[6] &= 0xF0;
-        b[7] = 0xFF;
+        kani::assume((b[4] >> 4) <= 12);
+        b[4] &= 0xF0;
+        b[5] = 0xFF;
     }
-}, |b: &[u8; 8]| if b[6] == 0xFF { if b[1] == 0 { 6usize } else { 8 } } else { 7usize });
+}, |b: &[u8; 6]| if b[4] == 0xFF { if b[1] == 0 { 4usize } else { 6 } } else { 5usize });
